@@ -1,0 +1,31 @@
+//go:build verif
+
+package smtp
+
+import (
+	"net"
+
+	"github.com/foxcpp/maddy/framework/module"
+	"github.com/foxcpp/maddy/internal/limits"
+)
+
+// Export shims for the /verif limits harness (property C11, build tag verif
+// only): sessions without a socket, so that startDelivery / releaseLimits can
+// be driven concurrently inside a testing/synctest bubble.
+
+// VerifLimitsGroup returns the limits group the endpoint was configured with.
+func (endp *Endpoint) VerifLimitsGroup() *limits.Group { return endp.limits }
+
+// VerifLimitsNewSession creates a session the way NewSession does for an
+// accepted connection from remote (no early checks, no rDNS lookup).
+func (endp *Endpoint) VerifLimitsNewSession(remote net.Addr) *Session {
+	s := endp.newSession(nil)
+	s.connState = module.ConnState{
+		Hostname:   "client.verif.test",
+		LocalAddr:  &net.TCPAddr{IP: net.IPv4(127, 0, 0, 1), Port: 25},
+		RemoteAddr: remote,
+		Proto:      "ESMTP",
+	}
+	endp.sessionCnt.Add(1)
+	return s
+}
